@@ -122,9 +122,28 @@ func (s *c07State) join(o *c07State) *c07State {
 			}
 		}
 	}
-	for p := range s.valid {
-		if o.valid[p] {
+	// the marker "no constraint function" makes every point valid: the other side's facts survive
+	switch {
+	case s.valid[c07Nil] && o.valid[c07Nil]:
+		for p := range s.valid {
+			if o.valid[p] {
+				r.valid[p] = true
+			}
+		}
+		r.valid[c07Nil] = true
+	case s.valid[c07Nil]:
+		for p := range o.valid {
 			r.valid[p] = true
+		}
+	case o.valid[c07Nil]:
+		for p := range s.valid {
+			r.valid[p] = true
+		}
+	default:
+		for p := range s.valid {
+			if o.valid[p] {
+				r.valid[p] = true
+			}
 		}
 	}
 	return r
@@ -594,6 +613,20 @@ func (f *c07Func) consCall(e ast.Expr) types.Object {
 // A missing constraint function (constraints.Value == nil) counts as "no constraint to violate".
 func (f *c07Func) validOnEdge(cond ast.Expr, edge bool) []types.Object {
 	var res []types.Object
+	// constraints.Value == nil established on this edge: there is no constraint to violate, every point is valid
+	// (recorded as validity of the marker object; the constraint function never changes)
+	{
+		e := ast.Unparen(cond)
+		if be, ok := e.(*ast.BinaryExpr); ok && types.ExprString(be.Y) == "nil" && f.cons != nil {
+			if sel, ok := ast.Unparen(be.X).(*ast.SelectorExpr); ok && sel.Sel.Name == "Value" {
+				if id, ok := ast.Unparen(sel.X).(*ast.Ident); ok && f.info.Uses[id] == f.cons {
+					if (be.Op == token.EQL && edge) || (be.Op == token.NEQ && !edge) {
+						res = append(res, c07Nil)
+					}
+				}
+			}
+		}
+	}
 	isNilTest := func(e ast.Expr, op token.Token) bool {
 		be, ok := ast.Unparen(e).(*ast.BinaryExpr)
 		return ok && be.Op == op && types.ExprString(be.Y) == "nil" && strings.HasSuffix(types.ExprString(be.X), ".Value")
@@ -811,16 +844,7 @@ func (f *c07Func) run() {
 				if !ok {
 					return true
 				}
-				isHook := false
-				switch fn := ast.Unparen(call.Fun).(type) {
-				case *ast.Ident:
-					isHook = f.hooks[f.info.Uses[fn]]
-				case *ast.SelectorExpr:
-					if id, ok := ast.Unparen(fn.X).(*ast.Ident); ok && fn.Sel.Name == "Value" {
-						isHook = f.hooks[f.info.Uses[id]]
-					}
-				}
-				if !isHook {
+				if !f.isHookCall(call) {
 					return true
 				}
 				var pts, res []types.Object
@@ -839,7 +863,7 @@ func (f *c07Func) run() {
 					return true
 				}
 				nHook++
-				cons := fmt.Sprintf("%s hook@%s", f.name, shortPos(c, call.Pos()))
+				cons := fmt.Sprintf("%s hook#%d", f.name, f.ordinal(call.Pos(), func(n ast.Node) bool { cc, ok := n.(*ast.CallExpr); return ok && f.isHookCall(cc) }))
 				if len(res) == 0 {
 					c.Fail("C07.R2", cons, "hook arguments belong to one point", call.Pos(), "the hook receives the point "+pts[0].Name()+" together with values that are not (on every path) results of an evaluation: "+types.ExprString(call))
 					return true
@@ -877,14 +901,14 @@ func (f *c07Func) run() {
 				ret := f.exitReturn(cond, lastRet)
 				if ret != nil && len(ret.Results) > 0 && len(res) == 0 {
 					if rv := f.identVar(ret.Results[0]); rv != nil && f.points[rv] {
-						c.Fail("C07.R3", fmt.Sprintf("%s stop@%s", f.name, shortPos(c, cond.Pos())), "stop test uses results of the returned point "+rv.Name(), cond.Pos(),
+						c.Fail("C07.R3", fmt.Sprintf("%s stop#%d", f.name, f.stopOrdinal(cond.Pos())), "stop test uses results of the returned point "+rv.Name(), cond.Pos(),
 							"the stopping test "+types.ExprString(cond)+" mentions no quantity that is, on every path, the result of an objective evaluation: what it tests is not the gradient/residual at the returned point "+rv.Name())
 					}
 				}
 				if ret != nil && len(ret.Results) > 0 && len(res) > 0 {
 					if rv := f.identVar(ret.Results[0]); rv != nil && f.points[rv] {
 						nStop++
-						cons := fmt.Sprintf("%s stop@%s", f.name, shortPos(c, cond.Pos()))
+						cons := fmt.Sprintf("%s stop#%d", f.name, f.stopOrdinal(cond.Pos()))
 						if f.cons != nil {
 							f.checkValidExit(s, rv, cons, cond.Pos(), "the stopping test succeeds")
 						}
@@ -905,7 +929,7 @@ func (f *c07Func) run() {
 				if tv, ok := f.info.Types[rs.Results[1]]; ok && tv.IsNil() {
 					if rv := f.identVar(rs.Results[0]); rv != nil && f.points[rv] {
 						nRet++
-						f.checkValidExit(s, rv, fmt.Sprintf("%s return@%s", f.name, shortPos(c, rs.Pos())), rs.Pos(), "this return is reached")
+						f.checkValidExit(s, rv, fmt.Sprintf("%s return#%d", f.name, f.ordinal(rs.Pos(), func(n ast.Node) bool { _, ok := n.(*ast.ReturnStmt); return ok })), rs.Pos(), "this return is reached")
 					}
 				}
 			}
@@ -1039,7 +1063,14 @@ func checkLineSearchSiblings(c *core.Ctx) {
 				if obj == nil {
 					continue
 				}
-				cons := fmt.Sprintf("algorithm/lineSearch.%s call %s@%s", fd.Name.Name, fn.Name(), shortPos(c, call.Pos()))
+				ord := 0
+				ast.Inspect(fd.Body, func(m ast.Node) bool {
+					if c2, ok := m.(*ast.CallExpr); ok && c2.Pos() < call.Pos() && core.Callee(info, c2) == fn {
+						ord++
+					}
+					return true
+				})
+				cons := fmt.Sprintf("algorithm/lineSearch.%s call %s#%d", fd.Name.Name, fn.Name(), ord)
 				got := types.ExprString(call.Args[k])
 				c.Check(got == pn, "C07.R4", cons, "parameter "+pn+" receives the caller's "+pn, call.Pos(),
 					fmt.Sprintf("%s is called with %s for its parameter %s (the value at alpha = 0) although the caller has its own %s: the second phase tests the Wolfe conditions against the wrong reference value", fn.Name(), got, pn, pn))
@@ -1112,11 +1143,12 @@ func checkLineSearchSiblings(c *core.Ctx) {
 // checkValidExit (R1): the point returned at this exit is known to satisfy the constraints.
 func (f *c07Func) checkValidExit(s *c07State, rv types.Object, cons string, pos token.Pos, when string) {
 	c := f.c
-	if why, ok := c07ReviewedReturns[f.name]; ok && !s.valid[rv] {
+	isValid := s.valid[rv] || s.valid[c07Nil]
+	if why, ok := c07ReviewedReturns[f.name]; ok && !isValid {
 		c.OK("C07.R1", cons, "returned point satisfies the constraints (reviewed: "+why+")", pos, "")
 		return
 	}
-	c.Check(s.valid[rv], "C07.R1", cons, "returned point "+rv.Name()+" satisfies the constraints", pos,
+	c.Check(isValid, "C07.R1", cons, "returned point "+rv.Name()+" satisfies the constraints", pos,
 		"when "+when+" the function returns "+rv.Name()+" with a nil error although on some path no test constraints.Value(·) of that point (or of a point it was copied from) succeeded since its last update: a point violating the user's constraints can be returned as the result")
 }
 
@@ -1208,4 +1240,37 @@ func evalBoolExpr(e ast.Expr, env map[string]float64) (bool, bool) {
 		}
 	}
 	return false, false
+}
+
+// isHookCall: the call invokes one of the function's hook parameters (hook(...) or hook.Value(...)).
+func (f *c07Func) isHookCall(call *ast.CallExpr) bool {
+	switch fn := ast.Unparen(call.Fun).(type) {
+	case *ast.Ident:
+		return f.hooks[f.info.Uses[fn]]
+	case *ast.SelectorExpr:
+		if id, ok := ast.Unparen(fn.X).(*ast.Ident); ok && fn.Sel.Name == "Value" {
+			return f.hooks[f.info.Uses[id]]
+		}
+	}
+	return false
+}
+
+// ordinal: number of matching nodes of the function that precede pos in the source (site names do not depend on line
+// numbers, so unrelated edits do not rename obligations or known findings).
+func (f *c07Func) ordinal(pos token.Pos, match func(ast.Node) bool) int {
+	n := 0
+	ast.Inspect(f.fd.Body, func(m ast.Node) bool {
+		if m != nil && m.Pos() < pos && match(m) {
+			n++
+		}
+		return true
+	})
+	return n
+}
+
+func (f *c07Func) stopOrdinal(pos token.Pos) int {
+	return f.ordinal(pos, func(n ast.Node) bool {
+		is, ok := n.(*ast.IfStmt)
+		return ok && f.mentionsEpsilon(is.Cond)
+	})
 }
